@@ -579,3 +579,24 @@ Theorem C09_deepest_explicit_line : forall c0 toks names lv m' g l1 cj prej l2 o
   forall lvl, In lvl (levels m') -> fm_get g lvl = Some e.
 Proof. exact deepest_explicit_line. Qed.
 Print Assumptions C09_deepest_explicit_line.
+
+(** the head of the chain for an ARBITRARY rest of the line (in or outside any class; also under
+    ignore_errors): a level that succeeds after its arguments ([wprefix]) and a selecting token ([wsel])
+    records the canonical name of the subcommand the selection resolves to *)
+Theorem C09_level_head : forall c b pre F pst pos tok n keep rest f st0 st,
+  is_set s_args_negate_subs c = false -> wprefix c b pre F pst pos -> wsel c b pst pos tok n keep ->
+  start_ok b st0 -> get_matches_with (S f) c (pre ++ tok :: rest) st0 = ROk st ->
+  exists sc0 m, find_subcommand c n = Some sc0 /\ mt_sub (mt st) = Some (c_name sc0, m).
+Proof. exact wlevel_head. Qed.
+Print Assumptions C09_level_head.
+
+(** … in particular after an inferred prefix — also one that matches only an ALIAS: the level records the
+    [c_name] of the one subcommand [tok] is a prefix of, whatever follows *)
+Theorem C09_infer_head_canonical : forall c b pre F pos tok n rest f st0 st,
+  is_set s_args_negate_subs c = false -> wprefix c b pre F PSValuesDone pos ->
+  utf8_valid tok = true -> is_set s_infer_sub c = true -> infer_list c tok = [n] -> not_help c n ->
+  start_ok b st0 -> get_matches_with (S f) c (pre ++ tok :: rest) st0 = ROk st ->
+  exists sc0 m, mt_sub (mt st) = Some (c_name sc0, m) /\ In sc0 (c_subs c) /\ sub_matches tok sc0 = true /\
+    (forall s, In s (c_subs c) -> sub_matches tok s = true -> s = sc0).
+Proof. exact infer_head_canonical. Qed.
+Print Assumptions C09_infer_head_canonical.
